@@ -94,6 +94,9 @@ class JsonMakerV1:
         if method == "singular":
             return self._construct_single(recipe, name, args, kwargs)
         else:
+            if not isinstance(kwargs, list) and not isinstance(args, list):
+                #nothing to iterate over (zipping two endless repeats would never end)
+                raise CobaException(f"Invalid recipe {str(recipe)}")
             if not isinstance(kwargs, list): kwargs = repeat(kwargs)
             if not isinstance(args  , list):   args = repeat(args)
             return [ self._construct_single(recipe, name, a, k) for a,k in zip(args, kwargs) ]
@@ -130,7 +133,8 @@ class JsonMakerV1:
             name = recipe
 
         if isinstance(recipe, dict):
-            name = recipe.get('name', None) or [key for key in recipe if key not in ["name", "args", "kwargs", "method"]][0]
+            free = [key for key in recipe if key not in ["name", "args", "kwargs", "method"]]
+            name = recipe.get('name', None) or (free[0] if free else None)
 
         return name in self._registry
 
